@@ -8,8 +8,9 @@ import runner
 
 LEVEL = "exploration"
 
-SUDO_CLASSES = {"sudo", "fee_schedule", "fee_asset", "validators", "price_feed"}
-IBC_SUDO_CLASSES = {"ibc_sudo", "ibc_relayer"}
+# who may change what (astria design: the IBC sudo address itself is set by the chain sudo; the relayer set by IBC sudo)
+SUDO_CLASSES = {"sudo", "ibc_sudo", "fee_schedule", "fee_asset", "validators", "price_feed"}
+IBC_SUDO_CLASSES = {"ibc_relayer"}
 BRIDGE_SUDO_CLASSES = {"bridge_sudo", "bridge_withdrawer", "bridge_disabled"}
 
 
@@ -21,7 +22,7 @@ def run(v, workdir, replay):
     check(v, hists)
     v.need("successful_executions", 500 if v.tier == "quick" else 15000)
     v.need("attacks_refused", 100)
-    for c in ("sudo", "fee_schedule", "fee_asset", "validators", "ibc_relayer", "bridge_sudo_or_withdrawer", "withdrawal_event"):
+    for c in ("sudo", "ibc_sudo", "fee_schedule", "fee_asset", "validators", "ibc_relayer", "bridge_sudo_or_withdrawer", "withdrawal_event"):
         v.need("legit_change:" + c, 3)
     v.need("attack:not_sudo", 20)
     v.need("attack:not_ibc_sudo", 5)
@@ -38,6 +39,8 @@ def check(v, hists):
         uni = h.genesis["universe"]
         genesis_sudo, genesis_ibc_sudo = uni["sudo"], uni["ibc_sudo"]
         for o in chainlog.walk(h):
+            if o.where == "packet":
+                continue
             intent = (o.tx or {}).get("intent", "?")
             attack = "attack" in intent
             if attack:
